@@ -642,6 +642,35 @@ def gen_split_boundary_scripts(rng, tier):
     return out
 
 
+def gen_storage_cycle_scripts(rng, tier):
+    """storages created and deleted repeatedly, ending with NO storage left (or all destroyed) before fin()"""
+    out = []
+    for n in range(6 if tier == "quick" else 24):
+        ops = ["init", "fin", "init", "enter"]
+        names = [b"s", b"t12345678", b"t123456789", b""][:rng.choice([1, 2, 4])]
+        for rnd in range(rng.choice([1, 2, 3])):
+            for nm in names:
+                ops.append("create " + hx(nm))
+                for i in range(rng.choice([0, 1, 20])):
+                    ops.append("put %s %s %s 8 0 0" % (hx(nm), hx(bytes([0x41 + i % 26, i])), hx(b"v")))
+            if rng.random() < 0.3:
+                ops.append("list")
+            order = list(names)
+            rng.shuffle(order)
+            for nm in order:
+                ops.append("dropst " + hx(nm))
+            if rng.random() < 0.5:
+                ops.append("list")
+        end = rng.random()
+        if end < 0.3:
+            ops.append("destroy")
+        elif end < 0.5:
+            ops += ["create 73", "destroy"]
+        ops += ["leave", "fin"]
+        out.append(("stcycle%d" % n, ops))
+    return out
+
+
 def gen_gc_scripts(rng, tier):
     """several retirements in one session with gc passes in between (the session stays open, so nothing is
     reclaimable yet), then leave and fin: everything must be released in the end"""
